@@ -937,7 +937,8 @@ fn make_var_heavy(r: &mut Rng, p: &mut Prog, d: &J) {
                 }
             }
         }
-        let mut kq = Query { some: false, parts: vec![Part::Key(k.clone())] };
+        let kq_plain = Query { some: false, parts: vec![Part::Key(k.clone())] };
+        let mut kq = kq_plain.clone();
         // sometimes one more step that may not apply to the value (an index on a map, a key on
         // a list or scalar, ...): whether that is "unresolved" or an error, it must be the same
         // with and without the variable
@@ -992,8 +993,8 @@ fn make_var_heavy(r: &mut Rng, p: &mut Prog, d: &J) {
         let op2 = if matches!(l2, J::List(_)) && r.chance(1, 2) { Op::In } else { Op::Eq };
         let not2 = r.chance(1, 3);
         p.lets.push(Let { name: "twl".into(), val: Arg::Lit(l2.clone()) });
-        p.rules.push(rule("tw2_a".into(), vec![], vec![cmp(kq.clone(), op2, not2, Some(rules::Rhs::Query(var("twl"))))]));
-        p.rules.push(rule("tw2_b".into(), vec![], vec![cmp(kq.clone(), op2, not2, Some(rules::Rhs::Lit(l2)))]));
+        p.rules.push(rule("tw2_a".into(), vec![], vec![cmp(kq_plain.clone(), op2, not2, Some(rules::Rhs::Query(var("twl"))))]));
+        p.rules.push(rule("tw2_b".into(), vec![], vec![cmp(kq_plain.clone(), op2, not2, Some(rules::Rhs::Lit(l2)))]));
         // (3) a parameterised rule: query argument on the left, literal argument on the right
         let l3 = match r.below(3) {
             0 => lit.clone(),
@@ -1003,8 +1004,8 @@ fn make_var_heavy(r: &mut Rng, p: &mut Prog, d: &J) {
         let op3 = if matches!(l3, J::List(_)) && r.chance(1, 2) { Op::In } else { Op::Eq };
         let not3 = r.chance(1, 3);
         p.prules.push(rules::PRule { name: "twp".into(), params: vec!["tx".into(), "ty".into()], body: Body { lets: vec![], lines: vec![cmp(var("tx"), op3, not3, Some(rules::Rhs::Query(var("ty"))))] } });
-        p.rules.push(rule("tw3_a".into(), vec![], vec![Line { alts: vec![Clause::Call { not: false, name: "twp".into(), args: vec![Arg::Query(kq.clone()), Arg::Lit(l3.clone())], msg: None }] }]));
-        p.rules.push(rule("tw3_b".into(), vec![], vec![cmp(kq, op3, not3, Some(rules::Rhs::Lit(l3)))]));
+        p.rules.push(rule("tw3_a".into(), vec![], vec![Line { alts: vec![Clause::Call { not: false, name: "twp".into(), args: vec![Arg::Query(kq_plain.clone()), Arg::Lit(l3.clone())], msg: None }] }]));
+        p.rules.push(rule("tw3_b".into(), vec![], vec![cmp(kq_plain, op3, not3, Some(rules::Rhs::Lit(l3)))]));
     }
     // two rules of one name (legal), each with its own rule-level variable of the same
     // name bound to something else; no rule refers to them by name
